@@ -33,6 +33,61 @@ func (r *Result) violateFor(prop, what, key string, replay interface{}) {
 	}
 }
 
+// blockFaultStore: a store whose SetBlock / SetFrame fail once for chosen block indexes / rounds
+// (a full disk, a transaction too big): the write did not happen, the caller sees an error.
+type blockFaultStore struct {
+	hg.Store
+	failBlock map[int]bool
+	failFrame map[int]bool
+	fired     int
+}
+
+func (s *blockFaultStore) SetBlock(b *hg.Block) error {
+	if s.failBlock[b.Index()] {
+		delete(s.failBlock, b.Index())
+		s.fired++
+		return fmt.Errorf("injected store failure (SetBlock %d)", b.Index())
+	}
+	return s.Store.SetBlock(b)
+}
+
+func (s *blockFaultStore) SetFrame(f *hg.Frame) error {
+	if s.failFrame[f.Round] {
+		delete(s.failFrame, f.Round)
+		s.fired++
+		return fmt.Errorf("injected store failure (SetFrame %d)", f.Round)
+	}
+	return s.Store.SetFrame(f)
+}
+
+// addFaultNode: one more real node, not mirrored by the model, whose store refuses a few block and
+// frame writes once. It receives the reference node's events in the same order; an insertion that
+// returns the injected error has entered the DAG (the error comes from the consensus pass), the next
+// insertion runs the passes again. The delivery oracles then apply to it like to any other node.
+func addFaultNode(r *Result, sc *scenario, rng *rand.Rand) {
+	ref := sc.nodes[0]
+	nd := newNode(sc.d, 900, 10000, "")
+	fs := &blockFaultStore{Store: nd.store, failBlock: map[int]bool{}, failFrame: map[int]bool{}}
+	for j := 0; j < 3; j++ {
+		fs.failBlock[1+rng.Intn(len(ref.blocks)+1)] = true
+		fs.failFrame[1+rng.Intn(ref.store.LastRound()+1)] = true
+	}
+	nd.store = fs
+	nd.h.Store = fs
+	for _, g := range ref.order {
+		cp := &hg.Event{Body: g.ev.Body, Signature: g.ev.Signature}
+		err := nd.h.InsertEventAndRunConsensus(cp, true)
+		if err != nil && !strings.Contains(err.Error(), "injected store failure") {
+			r.Inc("fault_node_other_errors", 1)
+			break
+		}
+		nd.inserted[g.name] = true
+		nd.order = append(nd.order, g)
+	}
+	r.Inc("store_write_failures_injected", fs.fired)
+	sc.nodes = append(sc.nodes, nd)
+}
+
 // buildScenario: one DAG, a reference node fed in creation order, further nodes
 // with other orders / sub-DAGs / stores / cache sizes / batchings.
 var failCommits = false // C02: one extra node's commit callback fails for a few blocks
@@ -547,7 +602,7 @@ func runHGWith(r *Result, thorough bool, prop string, rng *rand.Rand) {
 		if prop == "C18" {
 			extra = 1
 		}
-		failCommits = prop == "C02"
+		failCommits = prop == "C02" || prop == "C04"
 		sc := buildScenario(rng, o, extra, prop == "C03", prop == "C03" || prop == "C02", prop == "C03")
 		failCommits = false
 		for _, nd := range sc.nodes {
@@ -555,6 +610,9 @@ func runHGWith(r *Result, thorough bool, prop string, rng *rand.Rand) {
 		}
 		if prop == "C02" {
 			resetUsedNodes(r, sc, rng)
+		}
+		if (prop == "C02" || prop == "C04") && len(sc.nodes[0].blocks) >= 2 {
+			addFaultNode(r, sc, rng)
 		}
 		checkOracles(r, sc)
 		if os.Getenv("DBGLATE") != "" {
